@@ -39,6 +39,14 @@ def instances(tier):
         nocc = sum(len(re.findall(r"\{\d+\}", t)) for t in sk.files.values())
         for q in range(nocc):
             out.append(("rename.%s.q%02d" % (sk.name, q), dict(kind="rename", k=k, q=q)))
+        if tier == "thorough":
+            # two-letter spellings (old name, one slot at a time, and the new name): names that are
+            # prefixes / substrings of each other, queried at the slot's first occurrence
+            from harness.bcommon import len2_variants
+
+            slots_in_order = [int(x) for t in sk.files.values() for x in re.findall(r"\{(\d+)\}", t)]
+            for suf, slot in len2_variants(sk, tier)[1:]:
+                out.append(("rename.%s.q%02d%s" % (sk.name, slots_in_order.index(slot), suf), dict(kind="rename", k=k, q=slots_in_order.index(slot), len2=slot)))
     for L in range(0, BOUNDS[tier]["collector_L"] + 1):
         for n in (1, 2, 3):
             if n == 3 and L > BOUNDS[tier]["collector_L3"]:
@@ -48,7 +56,10 @@ def instances(tier):
 
 
 def make_rename(p):
-    sk = CORPUS[p["k"]]
+    from harness.bcommon import with_len2, slot_alphabet
+
+    sk = with_len2(CORPUS[p["k"]], p.get("len2"))
+    newlen = 2 if p.get("len2") is not None else 1
 
     def run():
         E = core.ENGINE
@@ -56,9 +67,12 @@ def make_rename(p):
         pat = force_partition(names)
         res = reserved_for(sk)
         letters = "".join(sorted(set("acdeghjkmnoqstvwxyz") - {x for x in res if len(x) == 1}))
-        new = sym_str("new", 1, ranges=[(ord(c), ord(c)) for c in letters], exclude=[x for x in res if len(x) == 1])
+        if newlen == 2:
+            letters = "".join(slot_alphabet(sk, res))  # may share letters with the old names
+        new = sym_str("new", newlen, ranges=[(ord(c), ord(c)) for c in letters], exclude=[x for x in res if len(x) == newlen])
         for n_ in names:
-            assume(new != n_)  # fresh
+            if len(n_) == newlen:
+                assume(new != n_)  # fresh
         files = instantiate(sk, names)
         m = E.fresh_model()
         cf = cfiles(files, m)
